@@ -3,7 +3,238 @@
 -/
 import Theo.Spec.Shape
 import Theo.Proofs.WFProofs
+import Theo.Proofs.SimStep
+import Theo.Proofs.SimPure
+
+set_option linter.unusedSimpArgs false
+set_option linter.unusedSectionVars false
 
 namespace Theo
+namespace Sim
+open Sem WF
 
+/-! ### iterating the reference machine -/
+
+def iter (src : Source) : Nat → Config → Config
+  | 0, c => c
+  | n + 1, c => Sem.step src (iter src n c)
+
+theorem iter_succ' (src : Source) (n : Nat) (c : Config) :
+    iter src (n + 1) c = iter src n (Sem.step src c) := by
+  induction n with
+  | zero => rfl
+  | succ n ih =>
+    show Sem.step src (iter src (n + 1) c) = Sem.step src (iter src n (Sem.step src c))
+    rw [ih]
+
+theorem step_fixed (src : Source) (c : Config) (h : c.status ≠ .running) : Sem.step src c = c := by
+  obtain ⟨stack, status⟩ := c
+  cases status with
+  | running => exact absurd rfl h
+  | halted => rfl
+  | stuck => rfl
+
+theorem run_fst (src : Source) : ∀ (n : Nat) (c : Config) (a : Nat),
+    (Sem.run src n c a).1 = iter src n c := by
+  intro n
+  induction n with
+  | zero => intro c a; rfl
+  | succ n ih =>
+    intro c a
+    rw [iter_succ']
+    unfold Sem.run
+    split
+    · exact ih _ _
+    · rename_i hne
+      have hfix := step_fixed src c (by intro h; exact hne h)
+      rw [hfix]
+      clear ih hfix
+      induction n with
+      | zero => rfl
+      | succ n ih2 =>
+        show c = Sem.step src (iter src n c)
+        rw [← ih2]
+        exact (step_fixed src c (by intro h; exact hne h)).symm
+
+section
+variable {src : Source} {p : Program} {V : Valid src p} (hV : V.OK)
+include hV
+
+/-! ### never stuck -/
+
+theorem initial_frameAt (H : Int → Nat → Prop) :
+    FrameAt (V.env src.progs.length) (V.G src.progs.length) H
+      ⟨src.progs.length, [], [], src.main, .done, .run⟩ (V.start src.progs.length) 0 := by
+  simp only [FrameAt]
+  have := checkStmts_sat (V.env src.progs.length) (V.G src.progs.length) (bodyOf src src.progs.length)
+    _ _ (hV.chk _ (Nat.le_refl _)) (Sub.refl _)
+  unfold bodyOf at this
+  rw [List.getElem?_eq_none (Nat.le_refl _)] at this
+  exact ⟨_, this, by simp only [KAt]⟩
+
+theorem pinv_initial : PInv V (initial src) := by
+  refine ⟨rfl, ?_, ?_⟩
+  · show PStack V [_]
+    rw [pstack_cons]
+    exact ⟨Nat.le_refl _, ⟨_, 0, initial_frameAt hV HT⟩, rfl⟩
+  · intro fr rest h
+    cases h
+    exact fun ⟨_, _, h⟩ => nomatch h
+
+theorem pinv_iter : ∀ n, (iter src n (initial src)).status ≠ .stuck ∧
+    ((iter src n (initial src)).status = .running → PInv V (iter src n (initial src))) := by
+  intro n
+  induction n with
+  | zero => exact ⟨by simp [iter, initial], fun _ => pinv_initial hV⟩
+  | succ n ih =>
+    have e : iter src (n + 1) (initial src) = Sem.step src (iter src n (initial src)) := rfl
+    rw [e]
+    by_cases hr : (iter src n (initial src)).status = .running
+    · exact pure_step hV (ih.2 hr)
+    · rw [step_fixed src _ hr]
+      exact ⟨ih.1, fun h => absurd h hr⟩
+
+end
+
+/-! ### the initial state -/
+
+section
+variable {src : Source} {p : Program} {V : Valid src p} {c : Cert} {R : PcInfo}
+  (hc : CertOK p c R) (hV : V.OK)
+include hc hV
+
+omit hV in
+theorem skips_run {pc pcF : Nat} (hs : Skips p.code pc pcF) : ∀ {vm : VM}, Good p c R.rid vm →
+    Anch p.code vm.ip pc →
+    ∃ vm', SS vm vm' ∧ Good p c R.rid vm' ∧ Anch p.code vm'.ip pcF ∧ vm'.stack = vm.stack ∧
+      vm'.data = vm.data := by
+  induction hs with
+  | refl pc => intro vm hg ha; exact ⟨vm, SS.refl _, hg, ha, rfl, rfl⟩
+  | jump h1 h2 _ ih =>
+    intro vm hg ha
+    obtain ⟨vm1, s1, g1, ip1, st1, d1⟩ := r_jmp hc hg ha h1
+    obtain ⟨vm2, s2, g2, a2, st2, d2⟩ := ih g1 (by rw [ip1, h2]; exact Anch.self _ _)
+    exact ⟨vm2, s1.ss.trans s2, g2, a2, st2.trans st1, d2.trans d1⟩
+
+theorem actmap_regs {j : Nat} (hj : j ≤ src.progs.length) {a : Act} (ham : ActMap p a)
+    (hdbg : a.dbg = (j : Int)) :
+    ∀ r nm, (r, nm) ∈ (V.ri j).regs → 0 ≤ r ∧ r < a.segSize := by
+  obtain ⟨hm, h0⟩ := ham
+  unfold mapOK at hm
+  rw [Bool.and_eq_true, decide_eq_true_eq] at hm
+  obtain ⟨sm, hsm, hregs⟩ := hV.regs j hj
+  have hd : a.dbg.toNat = j := by rw [hdbg]; omega
+  simp only [hd, hsm] at hm
+  intro r nm hmem
+  rw [hregs] at hmem
+  have := List.all_eq_true.1 hm.2 _ hmem
+  rw [regOK_iff] at this
+  exact ⟨this.1, by omega⟩
+
+theorem init_match : ∃ vm, SS (VM.mk' p) vm ∧ Match V c R (initial src) vm := by
+  obtain ⟨cnt, tgt, hhead⟩ := hV.head
+  have g0 := Good.init p c R.rid
+  obtain ⟨s1, g1⟩ := g0.exec1 hc (pc := 0) (vm' := { VM.mk' p with
+      data := [] ++ List.replicate cnt.toNat 0,
+      stack := [⟨0, cnt, tgt, -1, (src.progs.length : Int)⟩], ip := 0 + 1 }) (b := false)
+    rfl hhead (by simp) rfl
+  obtain ⟨vm2, s2, g2, a2, st2, d2⟩ :=
+    skips_run hc hV.skips g1 (by show Anch p.code ((0 : Int) + 1) 1; exact Anch.self _ 1)
+  refine ⟨vm2, SS.trans ⟨1, s1⟩ s2, g2, rfl, ⟨V.start src.progs.length, a2, ?_⟩, ?_⟩
+  · rw [st2]
+    show StackRel V vm2.data [_] [⟨0, cnt, tgt, -1, (src.progs.length : Int)⟩] _ 0
+    rw [stackRel_cons]
+    refine ⟨⟨Nat.le_refl _, rfl, ?_, initial_frameAt hV _⟩, rfl, rfl⟩
+    have ham := winv_actMap g2.winv _ (by rw [st2]; exact List.mem_cons_self)
+    have hcnt : 0 ≤ cnt := ham.2
+    refine callee_frameOK (params := []) (vals := []) (hV.nodup _ (Nat.le_refl _)) (by rfl) rfl
+      (fun _ h => nomatch h) ?_ (actmap_regs hc hV (Nat.le_refl _) ham rfl)
+    intro r hr
+    have hr' : (r : Int) < cnt := hr
+    rw [d2]
+    show ([] ++ List.replicate cnt.toNat (0 : Int))[0 + r]? = _
+    rw [List.nil_append, List.getElem?_replicate, if_pos (by omega)]
+    rfl
+  · intro fr rest h
+    cases h
+    exact fun ⟨_, _, h⟩ => nomatch h
+
+/-! ### the simulation along the whole reference execution -/
+
+theorem sim_iter : ∀ n,
+    ((iter src n (initial src)).status = .running →
+      ∃ vm, SS (VM.mk' p) vm ∧ Match V c R (iter src n (initial src)) vm) ∧
+    ((iter src n (initial src)).status = .halted →
+      ∃ vm, SS (VM.mk' p) vm ∧ Final (p := p) (iter src n (initial src)) vm) := by
+  intro n
+  induction n with
+  | zero =>
+    refine ⟨fun _ => init_match hc hV, fun h => ?_⟩
+    cases h
+  | succ n ih =>
+    have e : iter src (n + 1) (initial src) = Sem.step src (iter src n (initial src)) := rfl
+    rw [e]
+    by_cases hr : (iter src n (initial src)).status = .running
+    · obtain ⟨vm, s0, hm⟩ := ih.1 hr
+      have hres := sim_step hc hV hm
+      refine ⟨fun h => ?_, fun h => ?_⟩
+      · cases hres with
+        | run vm' _ hs hm' =>
+          refine ⟨vm', ?_, hm'⟩
+          rcases hs with hs | ⟨rfl, _⟩
+          · exact s0.trans hs.ss
+          · exact s0
+        | halt vm' hh _ _ => rw [hh] at h; cases h
+      · cases hres with
+        | run vm' hh _ _ => rw [hh] at h; cases h
+        | halt vm' _ hs hf => exact ⟨vm', s0.trans hs, hf⟩
+    · rw [step_fixed src _ hr]
+      exact ⟨fun h => absurd h hr, ih.2⟩
+
+/-- a halting reference execution: the VM reaches `HALT` with agreeing variables -/
+theorem halts_sim {n : Nat} (hh : (iter src n (initial src)).status = .halted) :
+    ∃ m vm, runFrom (VM.mk' p) m = .ok vm ∧ vm.isDone = .ok true ∧
+      StacksAgree' p vm.data (iter src n (initial src)).stack vm.stack := by
+  obtain ⟨vm, ⟨k, hs⟩, hd, hag⟩ := (sim_iter hc hV n).2 hh
+  exact ⟨k, vm, hs.run.1, hd, hag⟩
+
+/-- from a matched state of a diverging execution the VM eventually executes an instruction -/
+theorem advance (hd : ∀ n, (iter src n (initial src)).status = .running) :
+    ∀ (m n : Nat) (vm : VM), cmeasure (iter src n (initial src)) = m →
+      Match V c R (iter src n (initial src)) vm →
+      ∃ n' vm', SP vm vm' ∧ Match V c R (iter src n' (initial src)) vm' := by
+  intro m
+  induction m using Nat.strongRecOn with
+  | _ m ih =>
+    intro n vm hm hmatch
+    have hres := sim_step hc hV hmatch
+    have e : Sem.step src (iter src n (initial src)) = iter src (n + 1) (initial src) := rfl
+    rw [e] at hres
+    cases hres with
+    | run vm' _ hs hm' =>
+      rcases hs with hs | ⟨rfl, hlt⟩
+      · exact ⟨n + 1, vm', hs, hm'⟩
+      · exact ih _ (by rw [← hm]; exact hlt) (n + 1) vm' rfl hm'
+    | halt vm' hh _ _ => rw [hd (n + 1)] at hh; cases hh
+
+theorem diverges_far (hd : ∀ n, (iter src n (initial src)).status = .running) :
+    ∀ N : Nat, ∃ n vm k, N ≤ k ∧ Steps (VM.mk' p) k vm ∧ Match V c R (iter src n (initial src)) vm := by
+  intro N
+  induction N with
+  | zero =>
+    obtain ⟨vm, ⟨k, hs⟩, hm⟩ := init_match hc hV
+    exact ⟨0, vm, k, Nat.zero_le _, hs, hm⟩
+  | succ N ih =>
+    obtain ⟨n, vm, k, hk, hs, hm⟩ := ih
+    obtain ⟨n', vm', ⟨j, hs'⟩, hm'⟩ := advance hc hV hd _ n vm rfl hm
+    exact ⟨n', vm', k + (j + 1), by omega, hs.trans hs', hm'⟩
+
+theorem diverges_sim (hd : ∀ n, (iter src n (initial src)).status = .running) (m : Nat) :
+    ∃ vt, runFrom (VM.mk' p) m = .ok vt ∧ vt.isDone = .ok false := by
+  obtain ⟨n, vm, k, hk, hs, _⟩ := diverges_far hc hV hd (m + 1)
+  exact hs.run.2 m (by omega)
+
+end
+
+end Sim
 end Theo
